@@ -143,7 +143,6 @@ unsafe fn level_swap<M: Manager>(
                         children
                     }
                     node => {
-                        debug_assert!(node.level() > lower_no);
                         // The child is below the lower level, so we always have
                         // this child
                         (0..M::InnerNode::ARITY).map(|_| c.borrowed()).collect()
@@ -182,27 +181,30 @@ unsafe fn level_swap<M: Manager>(
             .collect();
 
         drop(grandchildren);
-        for child in children {
-            // Revisit the "old" children of `e`. If these are the only
-            // children, we may remove them, if they are on the old lower level.
-            // (A child might also be at some lower level, in which case the
-            // node could also be removed. However we must not access such a
-            // node.)
-            if let Node::Inner(child_node) = manager.get_node(&*child)
-                && child_node.level() == lower_no_pre
-                && child_node.ref_count() == 1
-            {
-                // The reference stems from the old `node`, whose children
-                // we replace below. Hence, we can remove child node.
-                upper.remove(child_node);
-            }
-        }
 
-        upper.insert(manager.clone_edge(e));
         for (i, child) in new_children.into_iter().enumerate() {
             // SAFETY: we have exclusive access to all nodes at the old upper
             // level and no child is borrowed.
             manager.drop_edge(unsafe { node.set_child(i, child) });
+        }
+        // All other nodes at the new upper level carry `lower_no_pre` as
+        // their level number.
+        // SAFETY: the caller will update level numbers accordingly
+        unsafe { node.set_level(lower_no_pre) };
+        unsafe { upper.insert_unchecked(manager.clone_edge(e)) };
+
+        // Revisit the "old" children of `e`. If they are on the old lower
+        // level and not referenced anymore, we remove them.
+        for (i, child) in children.iter().enumerate() {
+            if children[..i].iter().any(|c| c.node_id() == child.node_id()) {
+                continue; // already handled
+            }
+            if let Node::Inner(child_node) = manager.get_node(&**child)
+                && child_node.level() == lower_no_pre
+                && child_node.ref_count() == 0
+            {
+                upper.remove(child_node);
+            }
         }
     }
 
